@@ -9,8 +9,14 @@ For each candidate /tmp/wt/out/<PROP>/<mN>/{patch.diff,demo_test.go,demo_path.tx
 """
 import json, os, subprocess, sys, shutil, concurrent.futures, re, time
 ENV=dict(os.environ, GOFLAGS='-mod=mod', GOPROXY='off', GOSUMDB='off', GOTOOLCHAIN='local'); ENV.pop('GOWORK',None)
-SRC='/tmp/wt/out'; DST='/verif/seeded'
+SRC=os.environ.get('SEED_SRC','/tmp/wt/out'); DST='/verif/seeded'
+OLD=os.environ.get('OLD_LINT','')  # optional: analyser binary as committed before the seeds were seen
 FORCE_RACE={('C12','m1'),('C14','m2')}
+import glob
+for f in glob.glob(SRC+'/*/m*/meta.txt'):
+    t=open(f).read()
+    if re.search(r'(needs|need|requires?|required|with|run with)\s+(the\s+)?`?-race', t, re.I) and not re.search(r'-race`?\s+(is\s+)?not\s+(needed|required)|no\s+`?-race|not need `?-race|-race`? not needed', t, re.I):
+        parts=f.split('/'); FORCE_RACE.add((parts[-3],parts[-2]))
 PROPS=['C%02d'%i for i in range(1,21)]
 def sh(cmd, cwd=None, timeout=900):
     p=subprocess.run(cmd, shell=True, cwd=cwd, env=ENV, capture_output=True, text=True, timeout=timeout)
@@ -49,15 +55,23 @@ def one(prop, m):
             if rc!=0 or v:
                 det[q]=[re.sub(r' replay=\S+','',l)[:400] for l in v[:4]] or [f'exit {rc}: '+out[-300:]]
         res['detected_by']=det
+        if OLD:
+            det0={}
+            for q in PROPS:
+                rc,out=sh(f'{OLD} -prop {q} -tier quick -repo {wt} -verif /tmp/wt/ev_{prop}_{m}')
+                v=[l for l in out.splitlines() if l.startswith('VIOLATION')]
+                if rc!=0 or v:
+                    det0[q]=[re.sub(r' replay=\S+','',l)[:300] for l in v[:2]] or [f'exit {rc}']
+            res['detected_before']=det0
         shutil.rmtree(f'/tmp/wt/ev_{prop}_{m}', ignore_errors=True)
         res['meta_from_author']=meta
     finally:
         sh(f'git -C /repo worktree remove --force {wt}'); shutil.rmtree(wt, ignore_errors=True)
     return res
 def main():
-    todo=[(p,m) for p in PROPS for m in ('m1','m2')]
+    todo=[(p,m) for p in PROPS for m in sorted(os.listdir(f'{SRC}/{p}')) if m.startswith('m')] if False else [(p,m) for p in PROPS if os.path.isdir(f'{SRC}/{p}') for m in sorted(os.listdir(f'{SRC}/{p}'))]
     if len(sys.argv)>1: todo=[tuple(a.split('-')) for a in sys.argv[1:]]
-    with concurrent.futures.ThreadPoolExecutor(max_workers=6) as ex:
+    with concurrent.futures.ThreadPoolExecutor(max_workers=int(os.environ.get("SEED_WORKERS","6"))) as ex:
         futs={ex.submit(one,p,m):(p,m) for p,m in todo}
         for f in concurrent.futures.as_completed(futs):
             p,m=futs[f]
@@ -67,7 +81,7 @@ def main():
             ok = r.get('demo_on_clean')=='pass' and r.get('patch_applies') and r.get('builds') and r.get('baseline_with_patch')=='pass' and r.get('demo_with_patch')=='fail'
             r['confirmed']=bool(ok)
             own = p in r.get('detected_by',{})
-            print(f"{p}-{m}: confirmed={ok} clean={r.get('demo_on_clean')} applies={r.get('patch_applies')} baseline={r.get('baseline_with_patch')} demo_patched={r.get('demo_with_patch')} detected_by={sorted(r.get('detected_by',{}))} own={own}", flush=True)
+            print(f"{p}-{m}: before={sorted(r.get('detected_before',{})) if OLD else '-'} confirmed={ok} clean={r.get('demo_on_clean')} applies={r.get('patch_applies')} baseline={r.get('baseline_with_patch')} demo_patched={r.get('demo_with_patch')} detected_by={sorted(r.get('detected_by',{}))} own={own}", flush=True)
             out=f'{DST}/{p}-{m}'
             if ok:
                 os.makedirs(out, exist_ok=True)
@@ -79,6 +93,8 @@ def main():
                           verification=dict(ran=[r['demo_cmd']+' (clean tree: pass)', 'git apply patch.diff', 'go build ./...', '/verif/tools/baseline.sh <worktree> (pass)', r['demo_cmd']+' (patched: fail)'],
                                             demo_on_clean=r['demo_on_clean'], baseline_with_patch=r['baseline_with_patch'], demo_with_patch=r['demo_with_patch'], needs_race=r['needs_race'], demo_failure_tail=r['demo_with_patch_tail']),
                           detected_by_checks=r['detected_by'], detected_by_own_property_check=own)
+                if 'detected_before' in r:
+                    meta['detected_by_checks_before_rules_were_strengthened']=r['detected_before']
                 json.dump(meta, open(out+'/meta.json','w'), indent=1)
             else:
                 json.dump(r, open(f'/tmp/wt/unconfirmed_{p}_{m}.json','w'), indent=1)
